@@ -165,11 +165,14 @@ func oracleC13(x *Exec, so *StepObs) {
 		// effective values, read from the probe the chart renders
 		var defaults map[string]interface{}
 		if mode == "reuse" {
-			// the chart defaults in force at the deployed revision are the values of the chart stored with it
-			if d.Rel == nil || d.Rel.Chart == nil {
-				return
+			// the chart defaults in force at the deployed revision, followed through the history: a revision made with
+			// reuse-values (or by a rollback) inherits them from the revision it was made from
+			inForce, tainted := c13DefaultsInForce(x, so)
+			var ok bool
+			if defaults, ok = inForce[dep[0]]; !ok || tainted[dep[0]] {
+				return // (tainted: a null given to an earlier reuse-values upgrade of this chain; what it leaves behind is not specified)
 			}
-			defaults = asMap(normJSON(d.Rel.Chart.Values))
+			x.Sim.Probe("c13-defaults-from-history")
 		} else {
 			defaults = x.Plan.Charts[op.Chart].Values
 		}
@@ -302,6 +305,70 @@ func probeValuesNamed(manifest, ns, name string) map[string]interface{} {
 		}
 	}
 	return nil
+}
+
+// c13DefaultsInForce replays the history before step so and returns, per revision, the chart defaults that are in
+// force at it according to the statement: the defaults of the chart version it was made from, except that a revision
+// made with reuse-values keeps those of the then deployed revision and a rollback keeps those of its target.
+func c13DefaultsInForce(x *Exec, so *StepObs) (map[int]map[string]interface{}, map[int]bool) {
+	inForce := map[int]map[string]interface{}{}
+	tainted := map[int]bool{}
+	curDep := 0
+	for _, prev := range x.Steps {
+		if prev == so {
+			break
+		}
+		if prev.After == nil || len(prev.Results) != 1 {
+			continue
+		}
+		pr := prev.Results[0]
+		op := &pr.Op
+		if isDryOp(op) || pr.Crashed {
+			continue
+		}
+		created := createdRev(prev)
+		if created == 0 {
+			continue
+		}
+		// a null anywhere in what was given or recorded for a revision: what it does to the defaults is not specified
+		if lr := prev.After.Rev(created); lr != nil && (hasNull(normJSON(lr.Config)) || hasNull(normJSON(op.Values))) {
+			tainted[created] = true
+		}
+		switch op.Op {
+		case "install":
+			inForce[created] = x.Plan.Charts[op.Chart].Values
+		case "upgrade":
+			if op.ReuseValues && !op.ResetValues {
+				if d, ok := inForce[curDep]; ok {
+					inForce[created] = d
+				}
+				tainted[created] = tainted[created] || tainted[curDep]
+			} else {
+				inForce[created] = x.Plan.Charts[op.Chart].Values
+			}
+		case "rollback":
+			t := op.Revision
+			if t == 0 {
+				t = prev.Before.MaxRev() - 1
+			}
+			if d, ok := inForce[t]; ok {
+				inForce[created] = d
+			}
+			tainted[created] = tainted[created] || tainted[t]
+		default:
+			continue
+		}
+		// a table given where the defaults have a scalar (or the reverse): which one survives into later revisions is not specified
+		if lr := prev.After.Rev(created); lr != nil {
+			if d, ok := inForce[created]; ok && shapeConflict(asMap(normJSON(lr.Config)), asMap(normJSON(d))) {
+				tainted[created] = true
+			}
+		}
+		if pr.OK {
+			curDep = created
+		}
+	}
+	return inForce, tainted
 }
 
 func hasNull(v interface{}) bool {
